@@ -1051,6 +1051,127 @@ def collector_scenarios(tier):
     return out
 
 
+# ---------------------------------------------------------------------------------------------
+# Driver A2: PauliSumCollector (estimated energy must not depend on the completion order)
+
+import numpy as np
+
+_qa, _qb = cirq.LineQubit.range(2)
+
+
+class PauliFakeSampler(cirq.Sampler):
+    def __init__(self, env):
+        self.env = env
+        self.n = 0
+        self.jobs = {}  # jid -> (measured qubits, parities)
+
+    async def run_async(self, program, *, repetitions=1, param_resolver=None):
+        env = self.env
+        jid = self.n
+        self.n += 1
+        mop = [op for op in program.all_operations() if cirq.is_measurement(op)][-1]
+        nq = len(mop.qubits)
+        bits = np.zeros((repetitions, 1, nq), dtype=np.uint8)
+        par = []
+        for r in range(repetitions):
+            b = (jid + r + (1 if nq == 2 else 0)) % 2
+            bits[r, 0, 0] = b
+            par.append(b)
+        self.jobs[jid] = (tuple(mop.qubits), par)
+        f = JobFuture(env, jid)
+        f.payload = cirq.ResultDict(params=cirq.ParamResolver({}), records={"out": bits})
+        env.started.append((jid, repetitions))
+        env.running += 1
+        env.max_running = max(env.max_running, env.running)
+        if env.running > env.sc["concurrency"]:
+            env.budget_violation = f"{env.running} jobs running, concurrency={env.sc['concurrency']}"
+        env.log.append(("start", jid, repetitions))
+        env.pending.append(f)
+        return await f
+
+    def run_sweep(self, *a, **k):
+        raise NotImplementedError
+
+
+class PauliEnv(CollectorEnv):
+    def complete(self, i, fail=False):
+        f = self.pending.pop(i)
+        self.running -= 1
+        self.log.append(("complete", f.jid))
+        f.set_result(f.payload)
+
+
+def run_pauli_collector(sc):
+    def run(ch):
+        env = PauliEnv(ch, sc)
+        coefs = {(_qa,): 0.5, (_qa, _qb): -2.0}
+        observable = 0.5 * cirq.X(_qa) - 2.0 * cirq.Z(_qa) * cirq.Z(_qb) + 3.0
+        col = cirq.PauliSumCollector(cirq.Circuit(cirq.H(_qa)), observable, samples_per_term=sc["samples_per_term"],
+                                     max_samples_per_job=sc["max_samples_per_job"])
+        sampler = PauliFakeSampler(env)
+        sched = make_scheduler(env)
+        problem = None
+        task = sched.spawn(col.collect_async(sampler, concurrency=sc["concurrency"]))
+        try:
+            try:
+                while sched.active_tasks:
+                    sched.tick()
+            except BaseException as exc:
+                for t in list(sched.active_tasks):
+                    t.interrupt(None, exc)
+                n = 0
+                while sched.active_tasks and n < 100:
+                    n += 1
+                    try:
+                        sched.tick()
+                    except BaseException:
+                        pass
+                raise
+            task.result
+        except Deadlock as d:
+            problem = f"DEADLOCK/LIVELOCK: {d}"
+        energy = None
+        if problem is None:
+            if env.budget_violation:
+                problem = env.budget_violation
+            per_term = collections.Counter()
+            zeros = collections.Counter()
+            ones = collections.Counter()
+            for jid, reps in env.started:
+                qs, par = sampler.jobs[jid]
+                per_term[qs] += reps
+                zeros[qs] += par.count(0)
+                ones[qs] += par.count(1)
+            for qs in coefs:
+                if per_term[qs] != sc["samples_per_term"] and problem is None:
+                    problem = f"term on {qs}: {per_term[qs]} samples requested, samples_per_term={sc['samples_per_term']}"
+            ref = 3.0 + sum(c * (zeros[qs] - ones[qs]) / (zeros[qs] + ones[qs]) for qs, c in coefs.items() if zeros[qs] + ones[qs])
+            energy = col.estimated_energy()
+            if problem is None and abs(energy - ref) > 1e-9:
+                problem = f"estimated_energy()={energy}, but the delivered results give {ref} (a result was lost, duplicated or attributed to the wrong term)"
+            if problem is None and env.pending:
+                problem = "collect returned with jobs still running"
+        return {"problem": problem, "events": env.log, "snapshots": set(), "outcomes": (repr(energy), tuple(e[1] for e in env.log if e[0] == "complete"))}
+    return run
+
+
+def pauli_scenarios(tier):
+    out = []
+    for spt in (2, 3) if tier == "quick" else (2, 3, 4):
+        for mspj in (1, 2):
+            for conc in (1, 2, 3):
+                out.append({"samples_per_term": spt, "max_samples_per_job": mspj, "concurrency": conc, "deviations": 1 if tier == "quick" else 2,
+                            "errors": 0, "script": ()})
+    return out
+
+
+_SC_A2 = None
+
+
+def _a2_worker(case):
+    return _dfs_subtree(case, _SC_A2, run_pauli_collector, lambda sc: sc["deviations"])
+
+
 _SC_A = None
 
 
@@ -1392,6 +1513,7 @@ def stages(tier, seed):
         CaseStage("E_retry_table", table_cases, run_retry_table),
         CaseStage("E_response_demux_sequences", demux_cases, run_demux),
         make_dfs_stage("A_collector_schedules", sa, run_collector, _a_worker, "_SC_A", lambda sc: sc, depth=0),
+        make_dfs_stage("A2_pauli_sum_collector_schedules", pauli_scenarios(tier), run_pauli_collector, _a2_worker, "_SC_A2", lambda sc: sc, depth=0),
         make_dfs_stage("D_run_batch_schedules", sd, run_batch, _d_worker, "_SC_D", lambda sc: sc, depth=0),
         make_dfs_stage("B_stream_manager_schedules", sb, stream_run, _b_worker, "_SC_B", describe_scenario, depth=3),
         closure_stage(tier),
